@@ -612,9 +612,14 @@ class RTFDocument(BaseModel):
                 resources_dir = html_path.with_name(f"{html_path.name}_files")
                 shutil.move(str(html_path), target_path)
                 if resources_dir.is_dir():
-                    shutil.move(
-                        str(resources_dir), target_path.parent / resources_dir.name
-                    )
+                    resources_target = target_path.parent / resources_dir.name
+                    # Replace a resource folder left by an earlier export:
+                    # shutil.move() would otherwise move into the existing folder.
+                    if resources_target.is_dir() and not resources_target.is_symlink():
+                        shutil.rmtree(resources_target)
+                    elif resources_target.exists() or resources_target.is_symlink():
+                        resources_target.unlink()
+                    shutil.move(str(resources_dir), resources_target)
 
         print(target_path)
 
